@@ -101,28 +101,29 @@ let fn_of (x : sx) : fdecl =
         fn_body = List.map stmt_of body }
   | _ -> failwith "bad fn"
 let params_of ps = List.map (function L [t; A n] -> (ty_of t, cs n) | _ -> failwith "bad param") ps
+let vis_of = function "prot" -> VProt | "priv" -> VPriv | _ -> VPub
 let field_of (x : sx) : field =
   match x with
-  | L [A "field"; A st; A fin; t; A n; init] ->
-      { fd_static = (st = "1"); fd_final = (fin = "1"); fd_ty = ty_of t; fd_name = cs n; fd_init = opt expr_of init }
+  | L [A "field"; A st; A fin; t; A n; init; A v] ->
+      { fd_static = (st = "1"); fd_final = (fin = "1"); fd_ty = ty_of t; fd_name = cs n; fd_init = opt expr_of init; fd_vis = vis_of v }
   | _ -> failwith "bad field"
 let ctor_of (x : sx) : ctor =
   match x with
-  | L [A "ctor"; L ps; sup; L body; A d] ->
-      { ct_params = params_of ps;
+  | L [A "ctor"; L ps; sup; L body; A d; A v] ->
+      { ct_vis = vis_of v; ct_params = params_of ps;
         ct_super = (match sup with A "-" -> None | L (A "sup" :: es) -> Some (List.map expr_of es) | _ -> failwith "bad super");
         ct_body = List.map stmt_of body; ct_default = (d = "1") }
   | _ -> failwith "bad ctor"
 let meth_of (x : sx) : meth =
   match x with
-  | L [A "meth"; A n; L ps; ret; L body; A st; A vi] ->
-      { md_name = cs n; md_params = params_of ps; md_ret = ty_of ret; md_body = List.map stmt_of body;
+  | L [A "meth"; A n; L ps; ret; L body; A st; A vi; A v] ->
+      { md_vis = vis_of v; md_name = cs n; md_params = params_of ps; md_ret = ty_of ret; md_body = List.map stmt_of body;
         md_static = (st = "1"); md_virtual = (vi = "1") }
   | _ -> failwith "bad meth"
 let class_of (x : sx) : cdecl =
   match x with
-  | L [A "class"; A n; A b; L (A "fields" :: fs); L (A "ctors" :: cts); L (A "meths" :: ms); dt] ->
-      { cd_name = cs n; cd_base = (if b = "-" then None else Some (cs b)); cd_fields = List.map field_of fs;
+  | L [A "class"; A n; A b; L (A "fields" :: fs); L (A "ctors" :: cts); L (A "meths" :: ms); dt; A kd] ->
+      { cd_kind = (match kd with "abstract" -> KAbstract | "static" -> KStatic | _ -> KNormal); cd_name = cs n; cd_base = (if b = "-" then None else Some (cs b)); cd_fields = List.map field_of fs;
         cd_ctors = List.map ctor_of cts; cd_meths = List.map meth_of ms;
         cd_dtor = (match dt with A "-" -> None | L (A "dtor" :: ss) -> Some (List.map stmt_of ss) | _ -> failwith "bad dtor") }
   | _ -> failwith "bad class"
@@ -148,6 +149,12 @@ let () =
           let (out, oc) = run fo (nat_of_int (int_of_string fuel)) p in
           let st = match oc with Finished -> "ok" | Failed e -> "err " ^ err_s e | Diverged -> "fuel" in
           Printf.printf "%s |%s\n" st (String.concat "" (List.map (fun l -> " " ^ hex (sc l)) out))
+        with Failure m -> Printf.printf "bad %s\n" m | Not_found -> print_endline "bad notfound")
+    | "ccheck" :: _ ->
+        let src = String.sub line 7 (String.length line - 7) in
+        (try
+          let p = prog_of (parse_sx src) in
+          print_endline (if ccheck_program p then "accept" else "reject")
         with Failure m -> Printf.printf "bad %s\n" m | Not_found -> print_endline "bad notfound")
     | "check" :: _ ->
         let src = String.sub line 6 (String.length line - 6) in
